@@ -194,55 +194,69 @@ theorem exec_pre_applyCont {pre bops : List Op} (hpre : pre = [] ∨ pre = [Op.e
       rw [exec_enter] at h
       exact ⟨n + 1, by rw [continuation_resumes]; exact h⟩
 
-theorem thunk_head {tmpl : Term} {max : Nat} {cl : Clause} {h b : Term} (hcr : CRel cl h b)
+/-- a substitution that behaves like a most general unifier of `a2`, `b2` -/
+structure MguLike (a2 b2 : Term) (τ2 : Subst) : Prop where
+  sound : a2.subst τ2 = b2.subst τ2
+  general : ∀ β : Subst, a2.subst β = b2.subst β → ∀ v, β v = (τ2 v).subst β
+  vars : ∀ y z, (τ2 y).hasVar z = true → z = y ∨ a2.hasVar z = true ∨ b2.hasVar z = true
+
+theorem mguLike_of_solve {a2 b2 : Term} {n : Nat} {θ2 : List (Nat × Term)}
+    (hr : Robinson.solve n [(a2, b2)] [] = .mgu θ2) : MguLike a2 b2 (substOf θ2) :=
+  ⟨solve_mgu_sound hr, solve_mgu_general hr, (solve_mgu_vars hr).2⟩
+
+/-- **one clause activation**, the clause's variables being sent to the reference's variables by an
+    arbitrary renaming-apart κ (for a program clause: `shift nv`) -/
+theorem thunk_head' {tmpl : Term} {max : Nat} {cl : Clause} {h b : Term} (hcr : CRel cl h b)
     {N : Nat} {env : Env} {σ : Subst} {π : Nat → Nat} {D : Nat → Prop} {nv : Nat}
     (hsim : SimW tmpl N env σ π D nv)
     (F : Nat) (g : Term) (K : Cont) (id : Nat) (m : MS) (res : Pr × MS)
     (hN : N ≤ m.user.nextVar) (hg : InD D g) (hgs : Shape g)
     (hkey : functorName g = functorName h ∧ (argList g).length = (argList h).length)
-    (hrun : evalThunk F (.clause cl (argList g) K env id) m = some res) :
+    (hrun : evalThunk F (.clause cl (argList g) K env id) m = some res)
+    (κ : Nat → Nat) (nv' : Nat) (hnv : nv ≤ nv')
+    (hκ1 : ∀ x y, (h.hasVar x = true ∨ b.hasVar x = true) → (h.hasVar y = true ∨ b.hasVar y = true) →
+      κ x = κ y → x = y)
+    (hκ2 : ∀ x u, (h.hasVar x = true ∨ b.hasVar x = true) → RV σ D u → π u ≠ κ x)
+    (hκ3 : ∀ x, (h.hasVar x = true ∨ b.hasVar x = true) → κ x < nv') :
     (∃ N', m.user.nextVar ≤ N' ∧ res = (failP, bump m N') ∧
-        ∀ n θ2, Robinson.solve n [(img σ π g, SLD.shift nv h)] [] ≠ .mgu θ2) ∨
+        ∀ τ2 : Subst, (img σ π g).subst τ2 ≠ (h.rename κ).subst τ2) ∨
     (∃ fuel' env' N' K1 Bs, m.user.nextVar ≤ N' ∧ applyCont fuel' K1 env' (bump m N') = some res ∧
         (SLD.conjuncts b = Bs ∨ (Bs = [] ∧ b = .atom "true")) ∧
-        (∀ n, Robinson.solve n [(img σ π g, SLD.shift nv h)] [] ≠ .clash) ∧
-        ∀ n θ2, Robinson.solve n [(img σ π g, SLD.shift nv h)] [] = .mgu θ2 →
-          ∃ σ' π' D' G1, SimW tmpl N' env' σ' π' D' (nv + SLD.maxVar (SLD.rule h b)) ∧
+        (∀ n, Robinson.solve n [(img σ π g, h.rename κ)] [] ≠ .clash) ∧
+        ∀ τ2, MguLike (img σ π g) (h.rename κ) τ2 →
+          ∃ σ' π' D' G1, SimW tmpl N' env' σ' π' D' nv' ∧
             (∀ v, D v → D' v) ∧
-            (∀ t, InD D t → img σ' π' t = (img σ π t).subst (substOf θ2)) ∧
+            (∀ t, InD D t → img σ' π' t = (img σ π t).subst τ2) ∧
             (∀ G, ContGoals tmpl max K G → ContGoals tmpl max K1 (G1 ++ G)) ∧
-            Forall2 (fun g1 bg => InD D' g1 ∧ img σ' π' g1 = (SLD.shift nv bg).subst (substOf θ2)) G1 Bs) := by
+            Forall2 (fun g1 bg => InD D' g1 ∧ img σ' π' g1 = (bg.rename κ).subst τ2) G1 Bs) := by
   obtain ⟨hargs, pre, bops, gs, hl, hcode, hpre, hsem, hgoals, hbody⟩ := hcr.info
   -- the clause variables
   let V : Nat → Prop := fun x => h.hasVar x = true ∨ ∃ g0 ∈ gs, (goalTerm g0).hasVar x = true
   have hhs : Shape h := shape_of_hornHead hl.horn
   have hhnv : ∀ w, h ≠ .var w := by
     rcases hhs with ⟨f, rfl⟩ | ⟨f, as, rfl, _⟩ <;> simp
-  have hV : ∀ x, V x → x ∈ cl.vars ∧ x < SLD.maxVar (SLD.rule h b) := by
-    have hmax : SLD.maxVar (SLD.rule h b) = Nat.max (SLD.maxVar h) (SLD.maxVar b) := by
-      simp [SLD.rule, SLD.mk2, SLD.maxVar, SLD.maxVarArgs]
+  have hV : ∀ x, V x → x ∈ cl.vars ∧ (h.hasVar x = true ∨ b.hasVar x = true) := by
     rintro x (hx | ⟨g0, hg0, hx⟩)
     · constructor
       · obtain ⟨a, ha, hax⟩ := hasVar_of_argList hx hhnv
         rw [← hl.args] at ha
         exact hl.pre.subset ((headCode_spec2 hargs {} hl.wf).1 a ha x hax)
-      · have := hasVar_lt_maxVar h hx
-        rw [hmax]; exact Nat.lt_of_lt_of_le this (Nat.le_max_left _ _)
+      · exact Or.inl hx
     · constructor
       · exact hsem.varsIn (fun g' hg' => (hgoals g' hg').1) g0 hg0 x hx
       · rcases hbody with hb | ⟨hb, _⟩
         · have : goalTerm g0 ∈ SLD.conjuncts b := by rw [hb]; exact List.mem_map_of_mem hg0
-          have := hasVar_lt_maxVar b (conjuncts_vars this hx)
-          rw [hmax]; exact Nat.lt_of_lt_of_le this (Nat.le_max_right _ _)
+          exact Or.inr (conjuncts_vars this hx)
         · subst hb; simp at hg0
   obtain ⟨π₁, D', hsim1, hDD', himg_old, himg_new⟩ :=
-    simW_act hsim hN hl.nodup V (SLD.maxVar (SLD.rule h b)) hV
+    simW_act' hsim hN hl.nodup V κ nv' (fun x hx => (hV x hx).1) hnv
+      (fun x y hx hy => hκ1 x y (hV x hx).2 (hV y hy).2)
+      (fun x u hx hu => hκ2 x u (hV x hx).2 hu) (fun x hx => hκ3 x (hV x hx).2)
   let ρ := renOf cl.vars (freshL m.user.nextVar cl.vars.length)
   have hren : Renames cl.vars (freshL m.user.nextVar cl.vars.length) ρ := renames_renOf hl.nodup (by simp)
   have hhV : ∀ x, h.hasVar x = true → V x := fun x hx => Or.inl hx
   obtain ⟨hih, hhD⟩ := himg_new h hhV
   have hgi : img σ π₁ g = img σ π g := himg_old g hg
-  -- the equations: arguments vs renamed head arguments ↔ goal vs renamed head
   have hargsEq : (Rep.absArgs hargs).toList.map (Term.rename ρ) = argList (h.rename ρ) := by
     rw [hl.args, argList_rename]
   have hkey' : functorName g = functorName (h.rename ρ) ∧ (argList g).length = (argList (h.rename ρ)).length := by
@@ -262,9 +276,9 @@ theorem thunk_head {tmpl : Term} {max : Nat} {cl : Clause} {h b : Term} (hcr : C
   rcases hrun' with ⟨N', hN', hres, hfail⟩ | ⟨fuel', env', N', _, hx, hstep, hchain, hsound⟩
   · left
     refine ⟨N', by omega, hres, ?_⟩
-    intro n θ2 hr
-    rw [← hgi, ← hih] at hr
-    exact bridge_fail hsim1.mg.mgu (fun ⟨θ, hs, hu⟩ => hfail ⟨θ, hs, (hE θ).2 hu⟩) hr
+    intro τ2 hu
+    rw [← hgi, ← hih] at hu
+    exact bridge_fail' hsim1.mg.mgu (fun ⟨θ, hs, hu⟩ => hfail ⟨θ, hs, (hE θ).2 hu⟩) τ2 hu
   · right
     obtain ⟨f2, hcont⟩ := exec_pre_applyCont hpre fuel' _ K env' id _ res hx
     have hstep' : MGUStep (m.user.nextVar + cl.vars.length) env
@@ -282,17 +296,16 @@ theorem thunk_head {tmpl : Term} {max : Nat} {cl : Clause} {h b : Term} (hcr : C
       obtain ⟨hs0, hu⟩ := hsound θ hs
       rw [hargsEq] at hu
       exact ⟨hs0, iunifies_shape hgs (shape_rename ρ hhs) hkey'.1 hkey'.2 θ hu⟩
-    · intro n θ2 hr
-      have hr' := hr
-      rw [← hgi, ← hih] at hr'
-      obtain ⟨σ', π', hσ', hinj, heq⟩ := bridge_ok hsim1.mg (Nat.le_refl _) (fun v hv => (hsim1.dlt v hv).2)
-        hgD' hhD hsim1.inj hstep' hchain hr'
-      have heq' : ∀ t, InD D' t → img σ' π' t = (img σ π₁ t).subst (substOf θ2) := heq
+    · intro τ2 hτ
+      have hτ' : MguLike (img σ π₁ g) (img σ π₁ (h.rename ρ)) τ2 := by rw [hgi, hih]; exact hτ
+      obtain ⟨σ', π', hσ', hinj, heq⟩ := bridge_ok' hsim1.mg (Nat.le_refl _) (fun v hv => (hsim1.dlt v hv).2)
+        hgD' hhD hsim1.inj hstep' hchain τ2 hτ'.sound hτ'.general
+      have heq' : ∀ t, InD D' t → img σ' π' t = (img σ π₁ t).subst τ2 := heq
       refine ⟨σ', π', D', gs.map (fun g0 => (goalTerm g0).rename ρ),
         ⟨hσ', hchain.chainOK hsim1.chain, by have := hsim.pos; omega,
           fun v hv => ⟨(hsim1.dlt v hv).1, Nat.lt_of_lt_of_le (hsim1.dlt v hv).2 hchain.le⟩, hinj, ?_,
           hsim1.tmplD⟩, hDD', ?_, ?_, ?_⟩
-      · refine bnd_step hr' ?_ ?_ hsim1.bnd heq
+      · refine bnd_step' hτ'.vars ?_ ?_ hsim1.bnd heq
         · intro z hz; exact img_vars_lt hsim1 hgD' hz
         · intro z hz; exact img_vars_lt hsim1 hhD hz
       · intro t ht
@@ -304,5 +317,50 @@ theorem thunk_head {tmpl : Term} {max : Nat} {cl : Clause} {h b : Term} (hcr : C
         have hgV : ∀ x, (goalTerm g0).hasVar x = true → V x := fun x hx => Or.inr ⟨g0, hg0, hx⟩
         obtain ⟨h1, h2⟩ := himg_new (goalTerm g0) hgV
         exact ⟨h2, by rw [heq' _ h2, h1]⟩
+
+theorem maxVar_rule (h b : Term) : SLD.maxVar (SLD.rule h b) = Nat.max (SLD.maxVar h) (SLD.maxVar b) := by
+  simp [SLD.rule, SLD.mk2, SLD.maxVar, SLD.maxVarArgs]
+
+theorem thunk_head {tmpl : Term} {max : Nat} {cl : Clause} {h b : Term} (hcr : CRel cl h b)
+    {N : Nat} {env : Env} {σ : Subst} {π : Nat → Nat} {D : Nat → Prop} {nv : Nat}
+    (hsim : SimW tmpl N env σ π D nv)
+    (F : Nat) (g : Term) (K : Cont) (id : Nat) (m : MS) (res : Pr × MS)
+    (hN : N ≤ m.user.nextVar) (hg : InD D g) (hgs : Shape g)
+    (hkey : functorName g = functorName h ∧ (argList g).length = (argList h).length)
+    (hrun : evalThunk F (.clause cl (argList g) K env id) m = some res) :
+    (∃ N', m.user.nextVar ≤ N' ∧ res = (failP, bump m N') ∧
+        ∀ n θ2, Robinson.solve n [(img σ π g, SLD.shift nv h)] [] ≠ .mgu θ2) ∨
+    (∃ fuel' env' N' K1 Bs, m.user.nextVar ≤ N' ∧ applyCont fuel' K1 env' (bump m N') = some res ∧
+        (SLD.conjuncts b = Bs ∨ (Bs = [] ∧ b = .atom "true")) ∧
+        (∀ n, Robinson.solve n [(img σ π g, SLD.shift nv h)] [] ≠ .clash) ∧
+        ∀ n θ2, Robinson.solve n [(img σ π g, SLD.shift nv h)] [] = .mgu θ2 →
+          ∃ σ' π' D' G1, SimW tmpl N' env' σ' π' D' (nv + SLD.maxVar (SLD.rule h b)) ∧
+            (∀ v, D v → D' v) ∧
+            (∀ t, InD D t → img σ' π' t = (img σ π t).subst (substOf θ2)) ∧
+            (∀ G, ContGoals tmpl max K G → ContGoals tmpl max K1 (G1 ++ G)) ∧
+            Forall2 (fun g1 bg => InD D' g1 ∧ img σ' π' g1 = (SLD.shift nv bg).subst (substOf θ2)) G1 Bs) := by
+  have hlt : ∀ x, (h.hasVar x = true ∨ b.hasVar x = true) → x < SLD.maxVar (SLD.rule h b) := by
+    intro x hx
+    rw [maxVar_rule]
+    rcases hx with hx | hx
+    · exact Nat.lt_of_lt_of_le (hasVar_lt_maxVar h hx) (Nat.le_max_left _ _)
+    · exact Nat.lt_of_lt_of_le (hasVar_lt_maxVar b hx) (Nat.le_max_right _ _)
+  rcases thunk_head' (max := max) hcr hsim F g K id m res hN hg hgs hkey hrun (· + nv)
+      (nv + SLD.maxVar (SLD.rule h b)) (Nat.le_add_right _ _) (fun x y _ _ hxy => by omega)
+      (fun x u _ hu => by have := hsim.bnd u hu; omega) (fun x hx => by have := hlt x hx; omega) with
+    ⟨N', hN', hres, hno⟩ | ⟨fuel', env', N', K1, Bs, hN', hcont, hBs, hnoclash, hok⟩
+  · left
+    refine ⟨N', hN', hres, fun n θ2 hr => ?_⟩
+    rw [shift_eq_rename] at hr
+    exact hno (substOf θ2) (solve_mgu_sound hr)
+  · right
+    refine ⟨fuel', env', N', K1, Bs, hN', hcont, hBs, ?_, ?_⟩
+    · intro n hr; rw [shift_eq_rename] at hr; exact hnoclash n hr
+    · intro n θ2 hr
+      rw [shift_eq_rename] at hr
+      obtain ⟨σ', π', D', G1, h1, h2, h3, h4, h5⟩ := hok (substOf θ2) (mguLike_of_solve hr)
+      refine ⟨σ', π', D', G1, h1, h2, h3, h4, h5.imp ?_⟩
+      intro g1 bg hgb
+      rw [shift_eq_rename]; exact hgb
 
 end PrologVerif.Refine
